@@ -102,7 +102,7 @@ def auto_rejected_args(R, q, tdy):
     names = list(ref.parts_in(ast))
     if not any(n in names for n in ("TAG", "PYTAG")):
         return None
-    i = ref.TAG_ORDER.index(q.cur_state["tag"])
+    i = ref.TAG_ORDER.index("rc" if q.cur_state["tag"] == "preview" else q.cur_state["tag"])
     for lower in ref.TAG_ORDER[:i]:
         fl = dict(major=False, minor=False, patch=False, tag=lower, tag_num=False, pin_increments=True, pin_date=True)
         exp, why = updates.model_bump(q.vp, q.cur_text, fl, tdy, tdy)
